@@ -5,6 +5,7 @@ package main
 
 import (
 	"fmt"
+	"os"
 	"sort"
 	"strings"
 	"sync"
@@ -509,6 +510,12 @@ func (e *explorer) worker(id int) {
 		e.mu.Unlock()
 		e.cond.Broadcast()
 		return
+	}
+	if p := os.Getenv("VERIF_SMTLOG"); p != "" {
+		if f, err := os.Create(fmt.Sprintf("%s.%d.smt2", p, id)); err == nil {
+			solver.log = f
+			defer f.Close()
+		}
 	}
 	defer func() {
 		e.mu.Lock()
